@@ -15,6 +15,8 @@ import (
 	"io"
 	"math/rand/v2"
 	"testing"
+	"testing/synctest"
+	"time"
 
 	"github.com/database64128/shadowsocks-go/netio"
 	"github.com/database64128/shadowsocks-go/ss2022"
@@ -47,6 +49,7 @@ type action struct {
 	P   int    `json:"p"`
 	Pad int    `json:"pad"`
 	K   int    `json:"k"`
+	D   int    `json:"d"`
 	Len int    `json:"len"`
 	Cap int    `json:"cap"`
 	M   int    `json:"m"`
@@ -219,6 +222,9 @@ func (w *world) step(a action) {
 	switch a.N {
 	case "Dial":
 		w.dial(a)
+	case "Idle":
+		// nothing is on the wire; both sides stay silent for a.D seconds of the (virtual) clock
+		time.Sleep(time.Duration(a.D) * time.Second)
 	case "Deliver":
 		l := w.txLink(a.E)
 		if l == nil {
@@ -622,7 +628,13 @@ type obs struct {
 	Eof  map[string]bool `json:"eof"`
 }
 
+// runBehaviour replays one behaviour inside a synctest bubble: the tunnels are driven sequentially over the scripted
+// in-memory transport, so the only effect of the bubble is a virtual clock on which Idle can let minutes pass.
 func runBehaviour(t *testing.T, in *vio.Input, k consts, bi int, b vio.Behaviour, res *vio.Result) {
+	synctest.Test(t, func(t *testing.T) { runBehaviourIn(t, in, k, bi, b, res) })
+}
+
+func runBehaviourIn(t *testing.T, in *vio.Input, k consts, bi int, b vio.Behaviour, res *vio.Result) {
 	w := &world{t: t, res: res, k: k, bi: bi, pairs: map[string]*streamkit.Pair{}, sess: map[string]*streamkit.Session{},
 		str: map[string]*stream{}, al: map[string]int{}, rnd: rand.New(rand.NewPCG(uint64(in.Seed), uint64(bi)))}
 	for si, st := range b.Steps {
